@@ -20,7 +20,7 @@ META = {
     ),
     "anchors": ["abelian_core.calc_reshape_args", "abelian_core.AbelianArray.reshape"],
     "floors": {
-        "quick": {"evaluations": 60000, "distinct_nontrivial": 400, "tables": {"array/reshape": 3000, "array/roundtrip": 1500, "routine/forward": 40000, "routine/backward": 30000, "routine/with-fused-axes": 50000, "routine/long-forward": 50000, "routine/long-plans-with>=3-groups": 5000, "routine/plans-that-unfuse-and-expand": 2000, "array/expand-or-unfuse-target": 1500, "array/chain-roundtrip-depth-3": 500, "feature/nonzero-charge-singleton": 200, "feature/fused-axis": 200, "kind/fermionic": 500, "array/many-legs-roundtrip": 2000, "feature/merged-run-with->=6-odd-charges": 300}},
+        "quick": {"evaluations": 60000, "distinct_nontrivial": 400, "tables": {"array/reshape": 3000, "array/roundtrip": 1500, "routine/forward": 30000, "routine/backward": 25000, "routine/with-fused-axes": 50000, "routine/long-forward": 50000, "routine/long-plans-with>=3-groups": 5000, "routine/plans-that-unfuse-and-expand": 2000, "array/expand-or-unfuse-target": 1500, "array/chain-roundtrip-depth-3": 500, "feature/nonzero-charge-singleton": 200, "feature/fused-axis": 200, "kind/fermionic": 500, "array/many-legs-roundtrip": 2000, "feature/merged-run-with->=6-odd-charges": 300}},
         "thorough": {"evaluations": 300000, "distinct_nontrivial": 8000, "tables": {"array/reshape": 100000, "routine/forward": 40000}},
     },
     "exhaustive": {"quick": False, "thorough": False},
